@@ -283,6 +283,13 @@ private theorem good_step (st : St) (op : Op) (h : TypedStore st.opts) (hn : Key
   | processDeferred => exact good_processDeferred st h hn
   | reset => exact good_reset st h hn
   | merge kvs => exact good_merge st kvs h hn
+  | load env cwd data =>
+    simp only [step, load]
+    split
+    · exact good_updateDefer st _ h hn
+    · split
+      · exact ⟨h, hn, by simp⟩
+      · exact good_updateDefer st _ h hn
 
 private theorem good_runFrom (ops : List Op) : ∀ st : St, TypedStore st.opts → KeysNodup st.opts →
     TypedStore (runFrom st ops).1.opts ∧ KeysNodup (runFrom st ops).1.opts ∧ ∀ ob ∈ (runFrom st ops).2, TypedStore ob.seen := by
@@ -402,6 +409,7 @@ theorem rejected_update_restores_everything (st : St) (op : Op) (hop : isUpdateO
   | addOption n ty d => simp [isUpdateOp] at hop
   | subscribe l => simp [isUpdateOp] at hop
   | reset => simp [isUpdateOp] at hop
+  | load env cwd data => simp [isUpdateOp] at hop
   | merge kvs =>
     simp only [step, merge] at h ⊢
     cases hm : mergeVals st.opts kvs with
@@ -859,6 +867,8 @@ theorem nested_model_agrees_with_flat (st : St) (op : Op) (h : Passive st.listen
     split
     · rfl
     · exact hu st rfl _
+  | load env cwd data =>
+    simp only [stepN, step, loadN, load, updateDeferN, updateDefer, huk st rfl]
 
 /-- nobody reacts to the rollback notification `u` on store `s` by issuing an update -/
 def quiet (u : List Name) (s : Store) (ls : List Listener) : Bool :=
@@ -1063,6 +1073,17 @@ private theorem good_stepN (st : St) (op : Op) (h : TypedStore st.opts) (hn : Ke
     split
     · exact ⟨h, hn, by simp⟩
     · exact good_updateN st _ h hn
+  | load env cwd data =>
+    have hud : ∀ d, Good (updateDeferN st d) := by
+      intro d
+      have := good_updateKnownN st d h hn
+      simp only [updateDeferN]; split <;> exact this
+    simp only [stepN, loadN]
+    split
+    · exact hud _
+    · split
+      · exact ⟨h, hn, by simp⟩
+      · exact hud _
 
 private theorem good_runFromN (ops : List Op) : ∀ st : St, TypedStore st.opts → KeysNodup st.opts →
     TypedStore (runFromN st ops).1.opts ∧ ∀ ob ∈ (runFromN st ops).2, TypedStore ob.seen := by
@@ -1551,5 +1572,83 @@ example :
     let st : St := ⟨[(0, ⟨.seqStr, .seq [], .seq [.s [97]]⟩), (1, ⟨.int, .a (.i 0), .a (.i 0)⟩)], [], [], []⟩
     (mergeN st [(0, .seq [.s [98]]), (1, .a .none)]).st.opts = [(0, ⟨.seqStr, .seq [], .seq [.s [97], .s [98]]⟩), (1, ⟨.int, .a (.i 0), .a (.i 0)⟩)] ∧
     (mergeN st [(1, .seq [])]).out = .typeError ∧ (mergeN st [(5, .seq [])]).out = .attributeError := by decide
+
+/-! ### `load(opts, text, cwd)` -/
+
+/-- without a config directory `load` is `update_defer` of the parsed data -/
+theorem load_without_cwd (env : PathEnv) (st : St) (data : List (Name × Val)) :
+    loadN env st none data = updateDeferN st data := rfl
+
+private theorem relOne_absolute (env : PathEnv) (dir path : PyStr) (x : Atom)
+    (hc : (parsePath env.getcwd).root.isEmpty = false) (h : relOne env dir path = .ok x) :
+    ∃ p : PPath, p.root.isEmpty = false ∧ x = .s (utf8 p.str) := by
+  unfold relOne at h
+  cases hr : relativePath env.home env.pw env.getcwd dir path with
+  | error e => cases e <;> simp [hr] at h
+  | ok p =>
+    simp only [hr, Except.ok.injEq] at h
+    exact ⟨p, relative_path_is_absolute _ _ _ _ _ p hc hr, h.symm⟩
+
+private theorem relAll_absolute (env : PathEnv) (dir : PyStr) (hc : (parsePath env.getcwd).root.isEmpty = false) :
+    ∀ (xs ys : List Atom), relAll env dir xs = .ok ys →
+      ys.length = xs.length ∧ ∀ y ∈ ys, ∃ p : PPath, p.root.isEmpty = false ∧ y = .s (utf8 p.str) := by
+  intro xs
+  induction xs with
+  | nil => intro ys h; simp only [relAll, Except.ok.injEq] at h; subst h; simp
+  | cons a r ih =>
+    intro ys h
+    cases a with
+    | s b =>
+      simp only [relAll] at h
+      cases h1 : relOne env dir (MitmVerif.C35.native b) with
+      | error e => simp [h1] at h
+      | ok x =>
+        simp only [h1] at h
+        cases h2 : relAll env dir r with
+        | error e => simp [h2, Except.map] at h
+        | ok t =>
+          simp only [h2, Except.map, Except.ok.injEq] at h
+          subst h
+          obtain ⟨hl, hall⟩ := ih t h2
+          refine ⟨by simp [hl], ?_⟩
+          intro y hy
+          rcases List.mem_cons.mp hy with e | e
+          · subst e; exact relOne_absolute env dir _ _ hc h1
+          · exact hall y e
+    | b _ => simp [relAll] at h
+    | i _ => simp [relAll] at h
+    | none => simp [relAll] at h
+    | other => simp [relAll] at h
+
+/-- **load_makes_scripts_absolute.** For every environment with an absolute working directory, every config
+    directory and every parsed config whose `scripts` entry is a list: if the rewriting `load(…, cwd)` applies goes
+    through, the data handed to `update_defer` is the parsed data with `scripts` replaced by a list of the same length
+    whose entries are all absolute paths (in pathlib's normal form); everything else is untouched. A non-str entry is
+    a TypeError, an undeterminable `~user` a RuntimeError, a NUL in a user name a ValueError — and then nothing at all
+    is loaded. -/
+theorem load_makes_scripts_absolute (env : PathEnv) (dir : PyStr) (data : List (Name × Val)) (xs : List Atom)
+    (hc : (parsePath env.getcwd).root.isEmpty = false)
+    (hs : (data.find? (·.1 == scriptsName)).map (·.2) = some (.seq xs)) :
+    (∃ ys, rewriteScripts env dir data = .ok (dictReplace data scriptsName (.seq ys)) ∧ ys.length = xs.length ∧
+        ∀ y ∈ ys, ∃ p : PPath, p.root.isEmpty = false ∧ y = .s (utf8 p.str)) ∨
+    (∃ e, rewriteScripts env dir data = .error e ∧ ∀ st, (loadN env st (some dir) data).st = st ∧
+        (loadN env st (some dir) data).obs = []) := by
+  unfold rewriteScripts
+  simp only [hs]
+  cases hr : relAll env dir xs with
+  | error e =>
+    refine Or.inr ⟨e, by simp [Except.map], ?_⟩
+    intro st
+    simp [loadN, rewriteScripts, hs, hr, Except.map]
+  | ok ys =>
+    obtain ⟨hl, hall⟩ := relAll_absolute env dir hc xs ys hr
+    exact Or.inl ⟨ys, by simp [Except.map], hl, hall⟩
+
+/-- a config without a `scripts` entry (or with `scripts: null`) is loaded as it is -/
+theorem load_without_scripts (env : PathEnv) (dir : PyStr) (data : List (Name × Val))
+    (hs : (data.find? (·.1 == scriptsName)).map (·.2) = none ∨ (data.find? (·.1 == scriptsName)).map (·.2) = some (.a .none)) :
+    rewriteScripts env dir data = .ok data := by
+  unfold rewriteScripts
+  rcases hs with h | h <;> simp [h]
 
 end MitmVerif.Props.C44
